@@ -572,7 +572,7 @@ package jmespath
 //@   loop 2 invariant [filter] !isNil(collected) && allJSON(collected, len(collected))
 //@   loop 2 invariant {C02,C07} [filter-spec] pureTree(node) ==> same(specFilterFrom(compareNode, node.children[1], sliceType, \k, collected), specFilterFrom(compareNode, node.children[1], sliceType, 0, specEmptyList()))
 //@   loop 2 decreases arrLen(left) - \k
-//@   loop 3 invariant [flatten] !isNil(flattened) && allJSON(flattened, len(flattened))
+//@   loop 3 invariant [flatten] !isNil(flattened) && allJSON(flattened, len(flattened)) && allJSON(sliceType, len(sliceType))
 //@   loop 3 invariant {C02} [flatten-spec] same(specFlattenFrom(sliceType, \k, flattened), specFlattenFrom(sliceType, 0, specEmptyList()))
 //@   loop 3 decreases arrLen(left) - \k
 //@   loop 5 invariant [hash] !isNil(collected) && 0 <= len(collected) && (forall k string :: mapHas(collected, k) ==> specJSONVal(collected[k]))
@@ -1059,8 +1059,6 @@ package jmespath
 //@   loop 1 decreases 3 - \k
 //@   loop 2 invariant {C18} 0 <= i && !isNil(final) && allGo(final, len(final)) && len(sliceParams) == 3
 //@   loop 2 decreases goLen(value) - i
-
-
 // ---- BEGIN GO-VARIANT (generated by /verif/tools/mkgovariant.py; do not edit by hand) ----
 //@ define anyNumber(x) = same(x, x)
 //@ define allGo(s, n) = (forall j int :: 0 <= j && j < n ==> specGoVal(s[j]))
@@ -1133,7 +1131,7 @@ package jmespath
 //@   loop 1 decreases len(node.children) - \k
 //@   loop 2 invariant {C18} [filter] !isNil(collected) && allGo(collected, len(collected))
 //@   loop 2 decreases arrLen(left) - \k
-//@   loop 3 invariant {C18} [flatten] !isNil(flattened) && allGo(flattened, len(flattened))
+//@   loop 3 invariant {C18} [flatten] !isNil(flattened) && allGo(flattened, len(flattened)) && allGo(sliceType, len(sliceType))
 //@   loop 3 decreases arrLen(left) - \k
 //@   loop 5 invariant {C18} [hash] !isNil(collected) && 0 <= len(collected) && (forall k string :: mapHas(collected, k) ==> specGoVal(collected[k]))
 //@   loop 5 decreases len(node.children) - \k
@@ -1511,6 +1509,37 @@ package jmespath
 //@   ensures toks[i].tokenType == tUnquotedIdentifier ==> thd(specNud(toks, i)) && fst(specNud(toks, i)).nodeType == ASTField && same(fst(specNud(toks, i)).value, mkStr(toks[i].value))
 //@   ensures toks[i].tokenType == tQuotedIdentifier && thd(specNud(toks, i)) ==> fst(specNud(toks, i)).nodeType == ASTField && same(fst(specNud(toks, i)).value, mkStr(toks[i].value))
 //@   checkonly
+
+//@ lemma elements-of-a-go-array-are-go-values
+//@   props C18
+//@   var v Val
+//@   var i int
+//@   requires specGoVal(v) && isArr(v) && 0 <= i && i < arrLen(v)
+//@   ensures specGoVal(arrAt(v, i))
+//@   trigger specGoVal(arrAt(v, i))
+
+//@ lemma members-of-a-go-object-are-go-values
+//@   props C18
+//@   var v Val
+//@   var k string
+//@   requires specGoVal(v) && isObj(v) && objHas(v, k)
+//@   ensures specGoVal(objAt(v, k))
+//@   trigger specGoVal(objAt(v, k))
+
+//@ lemma json-values-have-only-the-json-kinds
+//@   props C05,C18
+//@   var v Val
+//@   requires specJSONVal(v)
+//@   ensures (kindOf(v) == 23 ==> isArr(v)) && (kindOf(v) == 21 ==> isObj(v)) && kindOf(v) != 22 && kindOf(v) != 25 && !isGo(v)
+//@   trigger specJSONVal(v)
+
+//@ lemma elements-of-a-json-array-are-json-values
+//@   props C05,C16
+//@   var v Val
+//@   var i int
+//@   requires specJSONVal(v) && isArr(v) && 0 <= i && i < arrLen(v)
+//@   ensures specJSONVal(arrAt(v, i))
+//@   trigger specJSONVal(arrAt(v, i))
 
 //@ lemma binding-powers-are-the-specified-precedences
 //@   props C03,C04,C02,C15
